@@ -55,9 +55,17 @@ pub fn add_styles(ws: &mut Worksheet) {
     ws.get_column_dimension_mut("C").set_width(20.0);
 }
 
+/// The numbers lo..=hi in a fixed scrambled order: annotations are ADDED in this order, so that insertion order,
+/// row-major order, column-major order and the order of the A1 strings all differ.
+pub fn scrambled(lo: u32, hi: u32) -> Vec<u32> {
+    let mut v: Vec<u32> = (lo..=hi).collect();
+    v.sort_by_key(|i| ((i * 37 + 11) % 101, *i));
+    v
+}
+
 /// `n` external hyperlinks on cells of column G (each with its own target).
 pub fn add_ext_links(ws: &mut Worksheet, n: u32, url_of: &dyn Fn(u32) -> String) {
-    for i in 1..=n {
+    for i in scrambled(1, n) {
         let c = ws.get_cell_mut((7u32, i));
         c.set_value_string(format!("link{}", i));
         let mut h = Hyperlink::default();
@@ -71,7 +79,7 @@ pub fn default_url(i: u32) -> String {
 
 /// `n` internal (location) hyperlinks on cells of column H.
 pub fn add_int_links(ws: &mut Worksheet, n: u32, loc_of: &dyn Fn(u32) -> String) {
-    for i in 1..=n {
+    for i in scrambled(1, n) {
         let c = ws.get_cell_mut((8u32, i));
         c.set_value_string(format!("jump{}", i));
         let mut h = Hyperlink::default();
@@ -85,7 +93,7 @@ pub fn default_loc(i: u32) -> String {
 }
 
 pub fn add_comments(ws: &mut Worksheet, n: u32, author_of: &dyn Fn(u32) -> String, text_of: &dyn Fn(u32) -> String) {
-    for i in 1..=n {
+    for i in scrambled(1, n) {
         let mut c = Comment::default();
         c.new_comment((10u32, i)); // column J
         c.set_author(author_of(i));
@@ -95,7 +103,7 @@ pub fn add_comments(ws: &mut Worksheet, n: u32, author_of: &dyn Fn(u32) -> Strin
 }
 
 pub fn add_merges(ws: &mut Worksheet, n: u32) {
-    for i in 0..n {
+    for i in if n == 0 { vec![] } else { scrambled(0, n - 1) } {
         let r = 20 + i * 3;
         ws.add_merge_cells(format!("A{}:B{}", r, r + 1));
     }
